@@ -106,7 +106,7 @@ class Translator:
     All other undriven signals are tied to their reset value (what the simulator and the Verilog do).
     """
 
-    def __init__(self, top, free=(), clocks=("sys",), meta=False, overrides=None):
+    def __init__(self, top, free=(), clocks=("sys",), meta=False, overrides=None, drop_instances=False):
         f = top if isinstance(top, _Fragment) else top.get_fragment()
         mta = MemoryToArray()
         mta.transform_fragment(None, f)
@@ -119,6 +119,10 @@ class Translator:
             ov.update(overrides)
         self.overrides = ov
         f, lowered = lower_specials(ov, f)
+        if drop_instances:
+            # black boxes: what they drive must be declared free by the caller; they have no simulation semantics
+            from migen.fhdl.specials import Instance as _Inst
+            f.specials = {s for s in f.specials if not isinstance(s, _Inst)}
         if f.specials:
             raise Unsupported("specials left after lowering: %r" % sorted(type(s).__name__ for s in f.specials))
         self.meta_regs = {r0: (i_s, cd) for (r0, i_s, cd) in _MetaMultiRegImpl.registry} if meta else {}
